@@ -727,6 +727,21 @@ func (ex *Exec) modTargetComp(ct *Contract, m *Clause) (string, types.Type, bool
 }
 
 func (ex *Exec) havocContractMods(fr *Frame, st, old *State, ct *Contract, pre *SpecEnv) {
+	if ct.ModAll {
+		keep := map[string]string{}
+		for _, e := range ct.ModExcept {
+			comp := ct.PkgPath + "." + e
+			ex.ensureComp(st, comp)
+			keep[comp] = ex.compTerm(st, comp)
+		}
+		ms := newModSet()
+		ms.allHeap = true
+		ex.havocModSet(fr, st, ms, ex.vc.name("call"))
+		for comp, t := range keep {
+			st.heap[comp] = t
+		}
+		return
+	}
 	if ct.Pure || (ct.HasMod && len(ct.Modifies) == 0) {
 		return
 	}
